@@ -50,6 +50,20 @@ int main(int argc, char** argv)
 		cl.push_back(eq(det, rd));
 		sym_emit(claim.c_str(), as, conj(cl));
 	}
+	else if (claim == "inv3g") {      // general (projective) 3x3: inverse() and det() with the products formed explicitly (operator* is affine-only)
+		Matrix3_<Sym> M; std::vector<std::vector<Sym> > a(3, std::vector<Sym>(3));
+		for (int i = 0; i < 3; i++) for (int j = 0; j < 3; j++) { M(i, j) = V("a", i, j); a[i][j] = M(i, j); }
+		Matrix3_<Sym> I = M.inverse();
+		Sym rd = refdet(a);
+		as.push_back("(not (= " + rd.n + " 0.0))");
+		for (int i = 0; i < 3; i++) for (int j = 0; j < 3; j++) {
+			Sym r(0), l(0);
+			for (int k = 0; k < 3; k++) { r = r + a[i][k] * I(k, j); l = l + I(i, k) * a[k][j]; }
+			cl.push_back(eq(r, Sym(i == j ? 1 : 0))); cl.push_back(eq(l, Sym(i == j ? 1 : 0)));
+		}
+		cl.push_back(eq(M.det(), rd));
+		sym_emit("inv3g", as, conj(cl));
+	}
 	else if (claim == "detmul4" || claim == "detmul3") {
 		Sym da, db, dab;
 		if (claim == "detmul4") { Matrix4_<Sym> A = symmat4("a"), B = symmat4("b"); da = A.det(); db = B.det(); dab = (A * B).det(); }
